@@ -14,6 +14,7 @@ func RequiredArguments() Rule {
 		}
 		walker.RegisterEnterDocumentVisitor(&visitor)
 		walker.RegisterEnterFieldVisitor(&visitor)
+		walker.RegisterEnterDirectiveVisitor(&visitor)
 	}
 }
 
@@ -48,6 +49,34 @@ func (r *requiredArgumentsVisitor) EnterField(ref int) {
 
 		if r.operation.ArgumentValue(argument).Kind == ast.ValueKindNull {
 			r.StopWithExternalErr(operationreport.ErrArgumentOnFieldMustNotBeNull(name, fieldName))
+			return
+		}
+	}
+}
+
+// EnterDirective applies the same rule to directives (spec 5.4.2.1: "For each Field or Directive in the document").
+func (r *requiredArgumentsVisitor) EnterDirective(ref int) {
+	directiveName := r.operation.DirectiveNameBytes(ref)
+	definitionRef, exists := r.definition.DirectiveDefinitionByNameBytes(directiveName)
+	if !exists || !r.definition.DirectiveDefinitions[definitionRef].HasArgumentsDefinitions {
+		return // unknown directives are reported by DirectivesAreDefined
+	}
+
+	for _, i := range r.definition.DirectiveDefinitions[definitionRef].ArgumentsDefinition.Refs {
+		if r.definition.InputValueDefinitionArgumentIsOptional(i) {
+			continue
+		}
+
+		name := r.definition.InputValueDefinitionNameBytes(i)
+
+		value, exists := r.operation.DirectiveArgumentValueByName(ref, name)
+		if !exists {
+			r.StopWithExternalErr(operationreport.ErrArgumentRequiredOnDirective(name, directiveName, r.operation.Directives[ref].At))
+			return
+		}
+
+		if value.Kind == ast.ValueKindNull {
+			r.StopWithExternalErr(operationreport.ErrArgumentOnDirectiveMustNotBeNull(name, directiveName, r.operation.Directives[ref].At))
 			return
 		}
 	}
